@@ -154,6 +154,21 @@ int p_c13(void)
 						xor_case(k, size, cnt, dal, &r, 1);
 					}
 		}
+	/* large symbols: code that switches strategy above a size threshold (around 2^12, 2^16, 2^17) with every residue modulo 8 */
+	{
+		static const uint32_t bases[] = { 4096, 32768, 65536, 131072 };
+		for (int k = K_ADD1; k <= K_TO; k++) for (unsigned bi = 0; bi < 4; bi++, unit++) {
+			rep_unit(unit);
+			if (!rep_unit_mine(unit)) continue;
+			if (!g_run.thorough && bi == 3 && k != K_ADD1) continue;
+			rng_t r = rng_make(g_run.seed, 1340 + (uint64_t)k, bi);
+			for (int d = -9; d <= 17; d++) {
+				uint32_t size = (uint32_t)((int)bases[bi] + d);
+				uint32_t cnt = k == K_ADD1 ? 1 : (d & 1) ? 8 + rng_below(&r, 5) : 1 + rng_below(&r, 7);
+				xor_case(k, size, cnt, (unsigned)(d & 7), &r, d & 1);
+			}
+		}
+	}
 	if (g_run.thorough)
 		for (int k = K_ADD1; k <= K_TO; k++, unit++) {
 			rep_unit(unit);
@@ -174,6 +189,13 @@ int p_c13(void)
 					mul_case(k, size, dal, sal, &r, (int)((size + dal + sal) & 1));
 				}
 		}
+	for (int k = K_RS28; k <= K_M4C; k++, unit++) {
+		rep_unit(unit);
+		if (!rep_unit_mine(unit)) continue;
+		rng_t r = rng_make(g_run.seed, 1350 + (uint64_t)k, 1);
+		static const uint32_t bases[] = { 4096, 65536 };
+		for (unsigned bi = 0; bi < 2; bi++) for (int d = -3; d <= 17; d += (g_run.thorough ? 1 : 2)) mul_case(k, (uint32_t)((int)bases[bi] + d), (unsigned)(d & 7), (unsigned)((d * 3) & 7), &r, d & 1);
+	}
 	if (g_run.thorough)
 		for (int k = K_RS28; k <= K_M4C; k++, unit++) {
 			rep_unit(unit);
